@@ -118,7 +118,7 @@ func (obj List) LoadForm() Object {
 			case nil:
 				// already nil
 			case LoadFormer:
-				form[1] = te.LoadForm()
+				form[1] = LoadFormValue(obj[len(obj)-2])
 			default:
 				PrintNotReadablePanic(NewScope(), 0, te, "Can not make a load form for %s.", te)
 			}
@@ -126,7 +126,7 @@ func (obj List) LoadForm() Object {
 			case nil:
 				// already nil
 			case LoadFormer:
-				form[2] = te.LoadForm()
+				form[2] = LoadFormValue(tail.Value)
 			default:
 				PrintNotReadablePanic(NewScope(), 0, te, "Can not make a load form for %s.", te)
 			}
@@ -138,7 +138,7 @@ func (obj List) LoadForm() Object {
 					case nil:
 						// already nil
 					case LoadFormer:
-						head[i+1] = te.LoadForm()
+						head[i+1] = LoadFormValue(obj[i])
 					default:
 						PrintNotReadablePanic(NewScope(), 0, te, "Can not make a load form for %s.", te)
 					}
@@ -155,7 +155,7 @@ func (obj List) LoadForm() Object {
 		case nil:
 			// already nil
 		case LoadFormer:
-			form[i+1] = tv.LoadForm()
+			form[i+1] = LoadFormValue(v)
 		default:
 			PrintNotReadablePanic(NewScope(), 0, tv, "Can not make a load form for %s.", tv)
 		}
